@@ -3,6 +3,7 @@ import Proofs.RandBasic
 import Proofs.RandLoop
 import Proofs.RandUniform
 import Proofs.RandSeed
+import Proofs.RandSource
 /-!
 # C17 — secret scalars and nonces drawn from entropy are in range, unbiased, replayable
 
@@ -63,6 +64,45 @@ theorem randrange_replay (ent₁ ent₂ : Entropy) (order : Int) (hist : List Na
   split
   · exact randrangeLoop_congr fuel hist h
   · rfl
+
+/-- converse of `randrange_deterministic` (so the two together say exactly which value is returned): if
+the source hands out `j` chunks that one iteration rejects and then one that it maps to `k`, and the
+fuel allows `j + 1` iterations, `randrange` returns `k` after exactly these `j + 1` requests -/
+theorem randrange_returns (ent : Entropy) (order : Int) (ho : 1 < order) (hist : List Nat) (fuel j k : Nat) (hj : j < fuel)
+    (hrej : ∀ i, i < j → ∃ c, ent (hist ++ List.replicate (i + 1) (upper256 order)) = .ok c ∧ oneDraw order c = .ok none)
+    (hacc : ∃ c, ent (hist ++ List.replicate (j + 1) (upper256 order)) = .ok c ∧ oneDraw order c = .ok (some k)) :
+    randrange ent order hist fuel = some (.ok (k, hist ++ List.replicate (j + 1) (upper256 order))) := by
+  unfold randrange
+  rw [if_pos ho]
+  exact randrangeLoop_complete j fuel hist k hj hrej hacc
+
+/-- **successive draws consume fresh bytes.**  With a scripted stream `s` as the source, a draw started
+after the requests `hist` (which consumed `sum hist` bytes) is the draw from scratch on the unread
+remainder `s.drop (sum hist)` — it cannot see the bytes of earlier draws — and after it returns, the
+bytes consumed so far (`sum hist'`) are still within the stream, so the statement chains to the next draw. -/
+theorem randrange_fresh_bytes (s : Bytes) (order : Int) (hist : List Nat) (fuel : Nat) (hsum : hist.sum ≤ s.length) :
+    randrange (streamEntropy s) order hist fuel =
+      relabel hist (randrange (streamEntropy (s.drop hist.sum)) order [] fuel) ∧
+    ∀ k hist', randrange (streamEntropy s) order hist fuel = some (.ok (k, hist')) →
+      hist.sum < hist'.sum ∧ hist'.sum ≤ s.length := by
+  constructor
+  · unfold randrange
+    split
+    · have := randrangeLoop_stream_shift s order hist hsum fuel []
+      simpa using this
+    · rfl
+  · intro k hist' h
+    obtain ⟨j, _, hh, _, c, hc, _⟩ := randrange_deterministic _ _ _ _ _ _ h
+    have e : hist ++ List.replicate (j + 1) (upper256 order) = (hist ++ List.replicate j (upper256 order)) ++ [upper256 order] := by
+      rw [List.replicate_succ', List.append_assoc]
+    rw [e, streamEntropy_snoc] at hc
+    split at hc
+    · cases hc
+    · rename_i hle
+      rw [hh, e]
+      simp only [List.sum_append, Rand.sum_replicate, List.sum_cons, List.sum_nil] at hle ⊢
+      have : 0 < upper256 order := by unfold upper256; omega
+      constructor <;> omega
 
 /-- non-vacuity of `randrange_deterministic` / `_replay`: order 2 (`order − 2 = 0`, bit length read as 1), three
 rejected one-byte chunks then an accepted one -/
@@ -225,5 +265,40 @@ theorem overshoot_modulo_range (H : Bytes → Bytes) (seedStr : Bytes) (order fu
 
 /-- non-vacuity (toy hash = identity): both helpers return on order 251 -/
 example : overshootModulo id [65] 251 2 = some (.ok 37) ∧ trytryagain id [65] 251 8 2 9 = some (.ok 113) := by decide +kernel
+
+/-! ## tie to the source text (translator)
+
+`Gen.Rand.*` is regenerated from `util.py` / `keys.py` on every run (harness/translate/gen_rand.py): the integer
+decisions of the code — request size, `+ 1`, acceptance tests, asserts, `bits // 8`, `bits % 8`, `(1 << n) - 1`,
+`% (order - 1) + 1` — cut out of the AST; the surrounding lines are pinned textually.  These theorems say the
+model takes exactly those decisions, so a change of, say, `<` into `<=` breaks a proof here (as well as the
+correspondence run). -/
+
+/-- `randrange`: precondition, request size, the value `int(top bits) + 1` and the acceptance test are the source's -/
+theorem source_randrange (ent : Entropy) (order : Int) (hist : List Nat) (fuel : Nat) (c : Bytes) :
+    (randrange ent order hist fuel =
+      if Gen.Rand.randrange_precondition order = 1 then randrangeLoop ent order fuel hist else some (.error .assertionError)) ∧
+    Gen.Rand.randrange_upper_2 order bitLengthInt = (upper2 order : Nat) ∧
+    Gen.Rand.randrange_upper_256 (upper2 order : Nat) = (upper256 order : Nat) ∧
+    oneDraw order c =
+      (intBase2 ((entropyToBits c).take (Gen.Rand.randrange_upper_2 order bitLengthInt).toNat)).bind fun top =>
+        if Gen.Rand.randrange_accept (Gen.Rand.randrange_rand_num top) order = 1
+        then .ok (some (Gen.Rand.randrange_rand_num top).toNat) else .ok none :=
+  ⟨randrange_source ent order hist fuel, src_upper2 order, src_upper256 order, oneDraw_source order c⟩
+
+/-- seed helpers and `sign_number`: masks, byte counts, `+ 1`, range tests and asserts are the source's -/
+theorem source_seed_helpers (order : Int) (bits v b : Nat) (n : Nat) (k : Int) :
+    bitsAndBytes bits = (bits, (Gen.Rand.bits_and_bytes_bytes bits).toNat, (Gen.Rand.bits_and_bytes_extrabits bits).toNat) ∧
+    (lsbOfOnes bits : Int) = Gen.Rand.lsb_of_ones bits ∧
+    ((order > 1) ↔ Gen.Rand.trytryagain_precondition order = 1) ∧
+    ((1 ≤ v + 1 ∧ ((v + 1 : Nat) : Int) < order) ↔ Gen.Rand.trytryagain_accept (Gen.Rand.trytryagain_guess v) order = 1) ∧
+    pmod (b : Int) ((n : Int) - 1) + 1 = Gen.Rand.overshoot_number b n ∧
+    ((1 ≤ k ∧ k < order) ↔ Gen.Rand.overshoot_assert k order = 1) ∧
+    ((1 ≤ k ∧ k < order) ↔ Gen.Rand.sign_number_assert k order = 1) :=
+  ⟨src_bitsAndBytes bits, src_lsbOfOnes bits, src_trytryagain_precondition order, src_trytryagain_accept v order,
+   (src_overshoot b n).1, by
+     unfold Gen.Rand.overshoot_assert
+     by_cases h : 1 ≤ k ∧ k < order <;> simp [h],
+   src_sign_number_assert k order⟩
 
 end C17
